@@ -413,6 +413,7 @@ type path struct {
 
 	world    *threadWorld // C20 environment (threads.go)
 	loadPlan *loadPlan    // C17 environment (threads.go)
+	ast      *astLink     // imported syntax trees (astimport.go)
 
 	intRanges  map[*Term][2]int64
 	decided    map[*Term]bool
